@@ -66,6 +66,7 @@ type Exec struct {
 	retSites int
 	iterMap map[*ssa.Range]Val
 	requiresPrefix int
+	curLits map[string]string
 	noFacts bool
 	typeArgFn *ssa.Function
 	loopPreserve map[*loopInfo]map[string]int
@@ -1854,16 +1855,27 @@ func (x *Exec) lookupName(name string, at *ssa.BasicBlock, st *State, allowUndef
 			bestDepth, best, bestIsAddr = d, v, isAddr
 		}
 	}
+	// a name that is a parameter denotes that variable (possibly reassigned),
+	// never a local that shadows it
+	var paramObj types.Object
+	for _, p := range x.fn.Params {
+		if p.Name() == name {
+			paramObj = p.Object()
+		}
+	}
 	for _, b := range x.fn.Blocks {
 		for i, in := range b.Instrs {
 			switch in := in.(type) {
 			case *ssa.Phi:
-				if in.Comment == name {
+				if in.Comment == name && paramObj == nil {
 					consider(in, false, b, i)
 				}
 			case *ssa.DebugRef:
 				if id, ok := in.Expr.(*ast.Ident); ok && id.Name == name {
 					if _, isFn := in.X.(*ssa.Function); isFn {
+						continue
+					}
+					if paramObj != nil && debugObj(x.fn, id) != paramObj {
 						continue
 					}
 					consider(in.X, in.IsAddr, b, i)
@@ -1923,6 +1935,28 @@ func (x *Exec) lookupName(name string, at *ssa.BasicBlock, st *State, allowUndef
 		return Val{T: t, Sort: e.sortOf(pt), GT: pt}, true
 	}
 	return x.materialize(x.val(best)), true
+}
+
+// debugObj finds the object an identifier in the function's syntax refers to.
+func debugObj(fn *ssa.Function, id *ast.Ident) types.Object {
+	pkg := fn.Pkg
+	if pkg == nil && fn.Parent() != nil {
+		pkg = fn.Parent().Pkg
+	}
+	for f := fn; f != nil && pkg == nil; f = f.Parent() {
+		pkg = f.Pkg
+	}
+	if pkg == nil {
+		return nil
+	}
+	info := typesInfoFor(pkg)
+	if info == nil {
+		return nil
+	}
+	if o := info.Uses[id]; o != nil {
+		return o
+	}
+	return info.Defs[id]
 }
 
 func domDepth(b *ssa.BasicBlock) int {
